@@ -380,7 +380,9 @@ class Ref:
         if k == "calllam":
             f = self.ev(e[1], sc)
             args = [self.ev(a, sc) for a in e[2]]
-            env = dict(f.env)
+            # every call starts from the values captured at creation (fresh cells): an assignment to a captured variable inside the
+            # body changes the call's own copy only (the reference manual forbids such assignments, the checker accepts them)
+            env = {x: [cell[0]] for x, cell in f.env.items()}
             for (x, _t), v in zip(f.params, args):
                 env[x] = [v]
             try:
